@@ -48,7 +48,8 @@ ASSUMPTIONS = [
     'strings are an uninterpreted sort with equality; str.startswith and string concatenation are uninterpreted functions',
     'search spaces, numpy arrays and converters are opaque values: the search-space construction inside the wrappers\' __init__ '
     '(bounds restriction of ShiftingExperimenter, feasible values of DiscretizingExperimenter, hypercube space) is executed but not verified',
-    'logging has no effect; the text of exception messages is not part of any obligation',
+    'logging has no effect; the text of exception messages and of infeasibility reasons is not part of any obligation (a trial is infeasible '
+    'iff its reason is not None; "the same reason" is not modelled)',
 ]
 
 TIER = 'quick'
@@ -524,14 +525,15 @@ def run_unit(chk, unit):
         refuted = refute(unit, set(posts) if not bad else None)
     violated = False
     for n in posts:
-        if st[n] in ('sat', 'unknown') and n in unit.confirm and not (refuted.get(n) and refuted[n][2]):
+        if (st[n] in ('sat', 'unknown') or (st[n] == 'proved' and not hints_ok)) and n in unit.confirm and not (refuted.get(n) and refuted[n][2]):
             sc = unit.confirm[n][0]()
             obs = run_replay(sc)
             try:
                 rep = (not unit.confirm[n][1](sc, obs)) if 'driver_error' not in obs else None
             except Exception as e:
                 obs, rep = dict(obs, native_check_error=repr(e)), None
-            i0 = ([i for i in by[n] if i['verdict'] == 'sat'] or [i for i in by[n] if i['verdict'] != 'unsat'])[0]
+            i0 = ([i for i in by[n] if i['verdict'] == 'sat'] or [i for i in by[n] if i['verdict'] != 'unsat'] or
+                  [dict(by[n][0], verdict='proved only under an unestablished loop contract')])[0]
             refuted[n] = ('solver %s on the symbolic run (%s); designed witness scenario replayed on the real code\n%s' % (i0['verdict'], i0['describe'], i0.get('model', '')),
                           {'scenario': sc, 'observed': obs, 'replay_cmd': '/venv/bin/python %s <scenario.json>' % REPLAY}, rep)
     for n in posts:
@@ -2267,6 +2269,13 @@ def pb_witness_scenario():
             'batch': [{'params': {'d': 2.0, 'c': 'a'}}], 'script': []}
 
 
+def pb_int_witness_scenario():
+    """an INTEGER parameter is permuted: its permuted values must still be usable as parameter values"""
+    return {'kind': 'evaluate', 'base': {'params': [{'name': 'i', 'type': 'INTEGER', 'bounds': [0, 3]}], 'metrics': [{'name': 'obj', 'goal': 'MINIMIZE'}]},
+            'wrappers': [{'module': 'permuting_experimenter', 'class': 'PermutingExperimenter', 'kwargs': {'parameters_to_permute': ['i'], 'seed': 1}}],
+            'batch': [{'params': {'i': 1}}], 'script': []}
+
+
 def n_tables_bijective(sc, obs):
     tabs = list((obs.get('tables') or {}).values())
     if len(tabs) != 1:
@@ -2286,7 +2295,8 @@ def units_permuting_bijection():
     if f is not None:
         known[n] = (f['what'], pb_int_class)
     return [Unit('PermutingExperimenter.__init__(bijection)', 'Permuting', [(PE, 'PermutingExperimenter.__init__')], pb_entry, pb_post, known=known,
-                 confirm={'C20.Permuting.__init__.bijection': (pb_witness_scenario, n_tables_bijective)})]
+                 confirm={'C20.Permuting.__init__.bijection': (pb_witness_scenario, n_tables_bijective),
+                          n: (pb_int_witness_scenario, lambda sc, obs: obs.get('exception') is None and all(t['has_fm'] for t in obs['after']))})]
 
 
 # =========================================================================================== SwitchExperimenter.evaluate
@@ -2346,6 +2356,14 @@ def sw_post(p):
     return post_common(R, p, wrapper_names=lambda s: s == mname)
 
 
+def sw_witness_scenario():
+    """the selected experimenter marks the trial infeasible (with an empty measurement)"""
+    return {'kind': 'evaluate', 'base': {'params': [{'name': 'x'}], 'metrics': [{'name': 'obj', 'goal': 'MINIMIZE'}]},
+            'wrappers': [{'module': 'switch_experimenter', 'class': 'SwitchExperimenter', 'kwargs': {'extra': 1}}],
+            'batch': [{'params': {'switch': 0, 'x': 0.5}}, {'params': {'switch': 1, 'x': 0.25}}],
+            'script': [[{'metrics': {}, 'infeasible': True, 'has_fm': True}], [{'metrics': {'obj': {'value': 1.0}}, 'infeasible': False, 'has_fm': True}]]}
+
+
 def units_switch():
     R = 'C20.Switch.evaluate.'
     rknown = {}
@@ -2353,7 +2371,8 @@ def units_switch():
     if f is not None:
         rknown[R + 'completes'] = f['what']
     return [Unit('SwitchExperimenter.evaluate', 'Switch', [(SW, 'SwitchExperimenter.evaluate'), (SW, 'SwitchExperimenter.__attrs_post_init__')],
-                 sw_entry(), sw_post, rentry=sw_entry(never_infeasible=True), rknown=rknown)]
+                 sw_entry(), sw_post, rentry=sw_entry(never_infeasible=True), rknown=rknown,
+                 confirm={R + 'completes': (sw_witness_scenario, n_completes(lambda sc: ['switch_metric']))})]
 
 
 # =========================================================================================== loop contracts by shape (refactoring robustness)
@@ -2429,8 +2448,9 @@ def native_notes(chk):
              'benchmark_runner, surrogate / HPOB / NASBench / combo / L1-categorical experimenters; NoisyExperimenter noise models (only determinism given a seed).')
     chk.note('COMPOSITION: every wrapper W is proved to re-establish BaseContract for W(e) from BaseContract for e (evaluate.completes + '
              'evaluate.parameters_unchanged|parameters_restored + evaluate.frame + problem_statement.by_value.* + problem_statement.metrics_of_wrapped_experimenter), '
-             'so the clauses hold for every finite stacking of SignFlip, Shifting, Permuting, Discretizing, Sparse, Noisy, Normalizing over any experimenter '
-             'satisfying BaseContract; HyperCube / HashingInfeasible / ParamRegionInfeasible / Switch only outside their recorded findings.')
+             'so the clauses hold for every finite stacking of SignFlip, Shifting, Permuting, Discretizing, Sparse, Noisy, Normalizing, HyperCube, '
+             'HashingInfeasible, ParamRegionInfeasible over any experimenter satisfying BaseContract (for every recorded finding that is still open, only outside its '
+             'witness class); SwitchExperimenter re-establishes completes / parameters / frame for its own metric.')
 
 
 # =========================================================================================== main
